@@ -2,6 +2,7 @@
 messages, job reports or standard output."""
 import ast
 
+from ..inline import is_replace_if_present
 from ..program import Program, AnalysisError, walk_local, dotted
 from ..analysis import Analyzer, Spec, src
 from ..rules import (GWF, EXC, mpt, need_func, stores_to, is_const)
@@ -205,6 +206,13 @@ def mask_wiring(prog, an, rep):
                 okp = isinstance(par, ast.Call) and (
                     src(par.func) in ('mask_pwd', 'subprocess.Popen',
                                       '_do_cmd') and x in par.args)
+                # mask_pwd written out: x.replace(pwd, '***') if pwd else x
+                up = par
+                for _ in range(3):
+                    if isinstance(up, ast.IfExp) and \
+                            is_replace_if_present(up):
+                        okp = True
+                    up = pm.get(up)
                 if x.id == 'output':
                     st = [s for s, _ in stores_to(g, 'output')]
                     okp = okp or isinstance(par, (ast.Return, ast.Tuple))
@@ -262,8 +270,12 @@ def sanitiser_shape(prog, an, rep):
         m = g.nested.get('mask_pwd')
         rep.evaluated()
         if m is None:
-            rep.violation(R, q + ': mask_pwd', g.where(), 'the local '
-                          'sanitiser mask_pwd is gone')
+            # written out at its (single) use as `x.replace(pwd, '***') if
+            # pwd else x`: same thing
+            idiom = [x for x in walk_local(g.node, include_root=False)
+                     if is_replace_if_present(x)]
+            rep.check(bool(idiom), R, q + ': mask_pwd', g.where(),
+                      'the local sanitiser mask_pwd is gone')
             continue
         # the secret: the local bound to the mask_pwd keyword
         pvar = None
